@@ -8,7 +8,8 @@ Three kinds of input (grammar: lean/TTV/Drv/C07.lean):
                                           matcher that returns None / a Mismatch with the given detail names
   [assert, api, existing, mismatch, after, tearDown, cleanups[, place]]
                                           ... and what the stage does after the call, what tearDown and the cleanups do;
-                                          place = body (default) | setUp: the stage that holds all of that
+                                          place = body (default) | setUp | setUpEarly: the stage that holds all of that
+                                          (setUpEarly: in the test's setUp BEFORE its upcall to the base setUp, which comes last)
 """
 import ast, itertools, os, random, sys, warnings
 from harness.core import Prop, some
@@ -313,7 +314,7 @@ class C07(Prop):
             'non-ASCII - on a pool of matchees incl. tuples, exc_info, paths with special mode bits), 30% text_repr inputs (str and bytes over an adversarial alphabet: '
             'quotes, backslash, newlines, controls, Latin-1, Z/C categories, astral, lone surrogate; multiline None/True/False), '
             '15% assertThat/assert_that/expectThat programs (pre-existing detail names that collide with the mismatch details / '
-            '"Failed expectation"; the call sits in the test method or - a third of them - in setUp; after the call that stage, tearDown and 0-3 cleanups return / skip / raise an expected failure / an '
+            '"Failed expectation"; the call sits in the test method or - a third of them - in setUp, before or after its upcall to the base setUp; after the call that stage, tearDown and 0-3 cleanups return / skip / raise an expected failure / an '
             'unexpected success / a failure / an error / KeyboardInterrupt). thorough adds every (place x api x mismatch x after x tearDown x cleanup) combination of a small alphabet, every (constructor shape x matchee x annotated x verbose) combination and every str of length <= 4 over a 12-character alphabet and every bytes of '
             'length <= 4 over 9 bytes, x 3 multiline settings. non-trivial: describe = a mismatch was returned; text_repr = the '
             'text contains a quote, backslash, newline or non-printable; assert = a mismatch with details or existing details')
@@ -327,7 +328,7 @@ class C07(Prop):
         'MatchesSetwise: messages naming left-over matchers are built inside match(); the model only accounts for them through the str() table',
         'detail names of the harness have no "-<digits>" tail, so that name-<n> is rendered injectively',
         'the end of the run (exceptions collected from body / tearDown / cleanups, forced failure appended last, _select_exception) is a small model of RunTest._run_core restricted to one exception per stage; the full run model belongs to C01-C05',
-        '"makes the test fail once it has finished" is claimed for expectations recorded in the test method and in setUp (whatever setUp then does: return, skip, expected failure, error ... - the setUp-failed branch of RunTest._run_core raises the forced failure too, since the fix); force_failure left by an earlier run of the same instance is carried over (_reset does not clear it) - M-Run models that as ff0 and C03 judges those runs',
+        '"makes the test fail once it has finished" is claimed for expectations recorded in the test method and in setUp, before or after the upcall to the base setUp (whatever setUp then does: return, skip, expected failure, error ... - the setUp-failed branch of RunTest._run_core raises the forced failure too, since the fix); force_failure left by an earlier run of the same instance is carried over (_reset does not clear it) - M-Run models that as ff0 and C03 judges those runs',
         'describe() / str(MismatchError) / str(matcher) are asked twice of the same object and must answer the same text',
     ]
 
@@ -546,6 +547,8 @@ class C07(Prop):
                 do(self, td)
 
             def setUp(self):
+                if place == 'setUpEarly':      # own work first, the upcall last (never reached when the stage raises)
+                    self.stage()
                 super().setUp()
                 if place == 'setUp':
                     self.stage()
@@ -699,7 +702,8 @@ class C07(Prop):
         act = lambda: rng.choice(ACTS) if rng.random() < 0.45 else 'ret'
         cleanups = [act() for _ in range(rng.choice([0, 0, 1, 1, 2, 3]))]
         if rng.random() < 0.35:      # the call sits in setUp, which then returns or gives up (skip, expected failure, error ...)
-            return ['assert', api, existing, mm, rng.choice(ACTS) if rng.random() < 0.7 else 'ret', act(), cleanups, 'setUp']
+            return ['assert', api, existing, mm, rng.choice(ACTS) if rng.random() < 0.6 else 'ret', act(), cleanups,
+                    rng.choice(['setUp', 'setUp', 'setUpEarly'])]
         return ['assert', api, existing, mm, act(), act(), cleanups]
 
     def gen_describe(self, rng):
@@ -762,7 +766,7 @@ class C07(Prop):
                             yield ['describe', c[0], c[1], a, vb]
 
         # the call in either stage x what the stage goes on to do x tearDown x a cleanup
-        for place in ('body', 'setUp'):
+        for place in ('body', 'setUp', 'setUpEarly'):
             for api in ('assertThat', 'expectThat', 'assert_that'):
                 for mm in (None, ['some', []], ['some', [2]]):
                     for after in ['ret'] + sorted(set(ACTS)):
@@ -821,7 +825,7 @@ class C07(Prop):
                 f.append('place:' + place)
                 if inp[1] == 'expectThat' and inp[3] is not None and any(a in ('skip', 'xfail') for a in [inp[4], inp[5]] + inp[6]):
                     f.append('failed-expectation-then-skip/xfail')
-                if place == 'setUp' and inp[4] != 'ret':
+                if place != 'body' and inp[4] != 'ret':
                     f.append('setUp-gives-up:' + inp[4])
                     if inp[1] == 'expectThat' and inp[3] is not None:
                         f.append('failed-expectation-in-setUp-then:' + inp[4])
@@ -868,7 +872,9 @@ class C07(Prop):
                     yield ['assert', inp[1], ex, inp[3], after, 'ret', cs] + pl
                 if after != 'ret':
                     yield ['assert', inp[1], ex, inp[3], 'ret', td, cs] + pl
-                if pl == ['setUp']:
+                if pl == ['setUpEarly']:
+                    yield ['assert', inp[1], ex, inp[3], after, td, cs, 'setUp']
+                if pl and pl != ['body']:
                     yield ['assert', inp[1], ex, inp[3], after, td, cs]
             for i in range(len(ex)):
                 yield ['assert', inp[1], ex[:i] + ex[i + 1:], inp[3]] + tail
